@@ -891,4 +891,10 @@ def run(ctx, res):
     r63(ctx, res)
     r64(ctx, res)
     r65_measures_read_primary_state(ctx, res)
+    # R6.6 no measure is rounded
+    from ..exact import report_rounding
+    from ..affine import affine_scope as _ascope
+    roots6 = [ctx.repo.fn(s_, m_) for s_, m_, _w in TARGETS]
+    kr = report_rounding(ctx, res, "R6.6", _ascope(ctx, roots6, ()), "the measure")
+    ctx.require(res, "R6.6", kr, 8, "functions scanned for rounding")
     res.undecided_ob("Heron's formula / centroid fan numerically exact; independence from vertex and face order (C09); centroid")
